@@ -177,7 +177,11 @@ class FitResult(HoloPyObject):
         data.attrs = unpack_attrs(data.attrs)
         if '_flat' in data.attrs.keys():
             flats = np.array(data.attrs['_flat']).T
-            levels = [data.original_dims[key] for key in ['x', 'y', 'z']]
+            if hasattr(data, 'original_dims'):
+                levels = [data.original_dims[key] for key in ['x', 'y', 'z']]
+            else:
+                # flattened (not subset) data: every pixel is present
+                levels = [np.unique(flat).tolist() for flat in flats]
             codes = [[level.index(f) for f in flat]
                      for level, flat in zip(levels, flats)]
             flat_index = pd.MultiIndex(levels, codes, names=['x', 'y', 'z'])
